@@ -45,18 +45,35 @@ theorem sumRat_map_update (l : List Nat) (hn : l.Nodup) (f g : Nat → Rat) (b :
     · have hab : a ≠ b := fun e => har (e ▸ hb')
       rw [ih hr hb', hfg a hab]; grind
 
+/-- overwriting the record of a connection object that the grid does not list -/
+theorem setCon_unlisted_inv {w : World} (hI : Grid.Inv w) {c : Nat} (hc : c ∉ w.connectionlist) (v : Con) :
+    Grid.Inv (w.setCon c v) := by
+  have hcn : ∀ c' ∈ w.connectionlist, (w.setCon c v).cn c' = w.cn c' := by
+    intro c' hc'
+    rw [cn_setCon]
+    have : c ≠ c' := fun e => hc (e ▸ hc')
+    simp [this]
+  refine Inv.mk' ?_ ?_ ?_ ?_ ?_
+  · exact hI.rockInv.frame rfl rfl (Nat.le_refl _) (fun _ _ => rfl)
+  · exact hI.blockInv.frame rfl rfl (Nat.le_refl _) (fun _ _ => rfl)
+  · exact hI.conInv.frame rfl rfl (by simp) (fun c' h => ⟨(hI.c_ends c' h).1, (hI.c_ends c' h).2.1⟩) hcn (fun _ _ => rfl)
+  · exact hI.rockLink.frame rfl (fun _ h => h) (fun _ _ => rfl)
+  · exact hI.connLink.frame hI.conInv rfl rfl hcn (fun _ _ => rfl) (fun _ _ => rfl)
+
 /-- **embed.**  Host grid = the world's current grid, `sub` a second consistent grid over the same
-    heap (no common object, no common block name; a host rock type whose name occurs in `sub` is
-    unused — else known finding F2), `c` a new connection object from a host block to a block of
-    `sub`.  Whatever `embed` returns, the current grid is consistent; and when it returns a grid,
-    the total volume of that grid equals the total volume of the host grid before. -/
-theorem embed_inv {w : World} {sub : Grid} {c : Nat}
+    heap (no common object; a host rock type whose name occurs in `sub` is unused — else known
+    finding F2), `c` a new connection object whose first block is *named* like a host block `x0` and
+    whose second block is named like a block `x1` of `sub` (the blocks themselves may be the grids'
+    own objects or equal-named foreign ones: `embed` re-points the connection by name).  `embed`
+    does not raise; whatever it returns, the current grid is consistent; and when it returns a
+    grid, the total volume of that grid equals the total volume of the host grid before. -/
+theorem embed_inv' {w : World} {sub : Grid} {c x0 x1 : Nat}
     (h1 : Grid.Inv w) (h2 : Grid.Inv (w.withGrid sub))
     (oR : ∀ x ∈ w.rocktypelist, x ∉ sub.rocktypelist) (oB : ∀ x ∈ w.blocklist, x ∉ sub.blocklist)
     (oC : ∀ x ∈ w.connectionlist, x ∉ sub.connectionlist)
     (nR : ∀ x ∈ w.rocktypelist, ∀ y ∈ sub.rocktypelist, w.rname x = w.rname y → ∀ b ∈ w.blocklist, (w.bk b).rock ≠ x)
     (hc : c < w.cons.length) (hc1 : c ∉ w.connectionlist) (hc2 : c ∉ sub.connectionlist)
-    (hhost : (w.cn c).b0 ∈ w.blocklist) (hsb : (w.cn c).b1 ∈ sub.blocklist) :
+    (hx0 : dget w.block (w.bname (w.cn c).b0) = some x0) (hx1 : dget sub.block (w.bname (w.cn c).b1) = some x1) :
     ∃ w' fl, embed w sub c = .ok (w', fl) ∧ Grid.Inv w' ∧
       (fl = true → totalVolume w' = totalVolume w) ∧ (fl = false → w' = w) := by
   unfold embed
@@ -83,79 +100,101 @@ theorem embed_inv {w : World} {sub : Grid} {c : Nat}
   have f_cn : ∀ x, w1.cn x = w.cn x := by intro x; simp only [World.cn, fc]
   generalize hb0 : (w.cn c).b0 = host at *
   generalize hb1 : (w.cn c).b1 = sb at *
-  have hhost1 : host ∈ w1.blocklist := (memB _).mpr (Or.inl hhost)
-  have hsb1 : sb ∈ w1.blocklist := (memB _).mpr (Or.inr hsb)
-  have hne : host ≠ sb := fun e => oB host hhost (e ▸ hsb)
-  have d0 : dget w1.block (w1.bname (w1.cn c).b0) = some host := by
-    rw [f_cn, hb0]; exact hI1.bd_complete host hhost1
-  have d1 : dget w1.block (w1.bname (w1.cn c).b1) = some sb := by
-    rw [f_cn, hb1]; exact hI1.bd_complete sb hsb1
+  have hx0' := h1.bd_sound _ _ hx0
+  have hx1' : x1 ∈ sub.blocklist ∧ w.bname x1 = w.bname sb := h2.bd_sound _ _ hx1
+  have hx0in : x0 ∈ w1.blocklist := (memB _).mpr (Or.inl hx0'.1)
+  have hx1in : x1 ∈ w1.blocklist := (memB _).mpr (Or.inr hx1'.1)
+  have hne : x0 ≠ x1 := fun e => oB x0 hx0'.1 (e ▸ hx1'.1)
+  have d0 : dget w1.block (w1.bname (w1.cn c).b0) = some x0 := by
+    rw [f_cn, hb0, f_bname, ← hx0'.2, ← f_bname]; exact hI1.bd_complete x0 hx0in
+  have d1 : dget w1.block (w1.bname (w1.cn c).b1) = some x1 := by
+    rw [f_cn, hb1, f_bname, ← hx1'.2, ← f_bname]; exact hI1.bd_complete x1 hx1in
   rw [d0, d1]
   simp only []
-  -- re-pointing the connection at the result's blocks changes nothing
-  have hsame : w1.setCon c { w1.cn c with b0 := host, b1 := sb } = w1 := by
-    have : ({ w1.cn c with b0 := host, b1 := sb } : Con) = w1.cn c := by
-      rw [f_cn]; cases hcn : w.cn c; simp only [hcn] at hb0 hb1; subst hb0; subst hb1; rfl
-    rw [this]; unfold World.setCon World.cn; rw [set_getD_self]
-  rw [hsame]
   have hc1' : c ∉ w1.connectionlist := by
     intro h; rcases (memC c).mp h with h | h
     · exact hc1 h
     · exact hc2 h
-  have hI3 := addConnection_inv hI1 (c := c) (by rw [fc]; exact hc) hc1'
-    (by rw [f_cn, hb0]; exact hhost1) (by rw [f_cn, hb1]; exact hsb1) (by rw [f_cn, hb0, hb1]; exact hne)
-  have hne' : (w1.cn c).b0 ≠ (w1.cn c).b1 := by rw [f_cn, hb0, hb1]; exact hne
-  obtain ⟨l, hl⟩ : ∃ l, (match dget w1.connection (w1.ckey c) with
-         | some old => replaceFirst w1.connectionlist old c
-         | none => some (w1.connectionlist ++ [c])) = some l := by
-    cases hd : dget w1.connection (w1.ckey c) with
+  have hclt : c < w1.cons.length := by rw [fc]; exact hc
+  -- the connection re-pointed at the result's own blocks
+  generalize hcv : ({ w1.cn c with b0 := x0, b1 := x1 } : Con) = cv
+  have hcv0 : cv.b0 = x0 := by rw [← hcv]
+  have hcv1 : cv.b1 = x1 := by rw [← hcv]
+  have hI2 := setCon_unlisted_inv hI1 hc1' cv
+  generalize hw2 : w1.setCon c cv = w2 at *
+  have k_cn : w2.cn c = cv := by subst hw2; rw [cn_setCon]; simp [hclt]
+  have k_bl : w2.blocklist = w1.blocklist := by subst hw2; rfl
+  have k_cl : w2.connectionlist = w1.connectionlist := by subst hw2; rfl
+  have k_bd : w2.block = w1.block := by subst hw2; rfl
+  have k_blks : w2.blks = w1.blks := by subst hw2; rfl
+  have k_bk : ∀ x, w2.bk x = w.bk x := by intro x; simp only [World.bk, k_blks, fb]
+  have k_bname : ∀ x, w2.bname x = w.bname x := by intro x; simp only [World.bname, k_bk]
+  have hne' : (w2.cn c).b0 ≠ (w2.cn c).b1 := by rw [k_cn, hcv0, hcv1]; exact hne
+  have hI3 := addConnection_inv hI2 (c := c) (by subst hw2; simpa using hclt) (by rw [k_cl]; exact hc1')
+    (by rw [k_cn, hcv0, k_bl]; exact hx0in) (by rw [k_cn, hcv1, k_bl]; exact hx1in) hne'
+  obtain ⟨l, hl⟩ : ∃ l, (match dget w2.connection (w2.ckey c) with
+         | some old => replaceFirst w2.connectionlist old c
+         | none => some (w2.connectionlist ++ [c])) = some l := by
+    cases hd : dget w2.connection (w2.ckey c) with
     | none => exact ⟨_, rfl⟩
     | some old =>
-      have hold := hI1.cd_sound _ _ hd
-      cases hr : replaceFirst w1.connectionlist old c with
+      have hold := hI2.cd_sound _ _ hd
+      cases hr : replaceFirst w2.connectionlist old c with
       | none => exact absurd hold.1 (replaceFirst_none.mp hr)
       | some l => exact ⟨l, by simp only [hr]⟩
   rw [addConnection_ok hne' hl] at hI3 ⊢
   simp only [worldOf_ok] at hI3 ⊢
-  generalize e3 : addConWorld w1 c l = w3 at *
-  have g_bl : w3.blocklist = w1.blocklist := by subst e3; rfl
-  have g_bd : w3.block = w1.block := by subst e3; rfl
+  generalize e3 : addConWorld w2 c l = w3 at *
+  have g_bl : w3.blocklist = w1.blocklist := by subst e3; exact k_bl
+  have g_bd : w3.block = w1.block := by subst e3; exact k_bd
   have g_vol : ∀ x, (w3.bk x).volume = (w.bk x).volume := by
     intro x; subst e3
     simp only [addConWorld, addConWorld', World.bk, getD_set, List.length_set]
     split
-    · rename_i h; rw [← h.1]; simp only [← fb]
+    · rename_i h; rw [← h.1]; simp only [k_blks, ← fb]
     · split
-      · rename_i h; rw [← h.1]; simp only [← fb]
-      · simp only [fb]
-  have g_bname : ∀ x, w3.bname x = w1.bname x := by
+      · rename_i h; rw [← h.1]; simp only [k_blks, ← fb]
+      · simp only [k_blks, fb]
+  have g_bname : ∀ x, w3.bname x = w.bname x := by
     intro x; subst e3
     simp only [World.bname, addConWorld, addConWorld', World.bk, getD_set, List.length_set]
     split
-    · rename_i h; rw [← h.1]
+    · rename_i h; rw [← h.1]; simp only [k_blks, fb]
     · split
-      · rename_i h; rw [← h.1]
-      · rfl
-  have d3 : dget w3.block (w3.bname host) = some host := by
-    rw [g_bd, g_bname]; exact hI1.bd_complete host hhost1
+      · rename_i h; rw [← h.1]; simp only [k_blks, fb]
+      · simp only [k_blks, fb]
+  have d3 : dget w3.block (w3.bname host) = some x0 := by
+    rw [g_bd, g_bname, ← hx0'.2, ← f_bname]; exact hI1.bd_complete x0 hx0in
   rw [d3]
   simp only []
-  refine ⟨_, true, rfl, setBlk_payload_inv hI3 host _ rfl rfl (fun h => hI3.b_rock host h), fun _ => ?_, (fun h => by cases h)⟩
+  refine ⟨_, true, rfl, setBlk_payload_inv hI3 x0 _ rfl rfl (fun h => hI3.b_rock x0 h), fun _ => ?_, (fun h => by cases h)⟩
   -- total volume
-  have hlt : host < w3.blks.length := hI3.bl_lt host (g_bl ▸ hhost1)
+  have hlt : x0 < w3.blks.length := hI3.bl_lt x0 (g_bl ▸ hx0in)
   generalize hsv : sumRat (sub.blocklist.map fun b => (w.bk b).volume) = subvol at *
   have hperm : w1.blocklist.Perm (w.blocklist ++ sub.blocklist) := by
     refine (List.perm_ext_iff_of_nodup ndB ?_).mpr ?_
     · exact List.nodup_append.mpr ⟨h1.bl_nodup, h2.bl_nodup, fun a ha b hb e => oB a ha (e ▸ hb)⟩
     · intro y; rw [memB, List.mem_append]; rfl
   unfold totalVolume
-  show sumRat ((w3.blocklist).map fun b => ((w3.setBlk host { w3.bk host with volume := (w3.bk host).volume - subvol }).bk b).volume) = _
+  show sumRat ((w3.blocklist).map fun b => ((w3.setBlk x0 { w3.bk x0 with volume := (w3.bk x0).volume - subvol }).bk b).volume) = _
   rw [g_bl]
   rw [sumRat_map_update w1.blocklist ndB (fun b => (w.bk b).volume)
-        (fun b => ((w3.setBlk host { w3.bk host with volume := (w3.bk host).volume - subvol }).bk b).volume) host hhost1
+        (fun b => ((w3.setBlk x0 { w3.bk x0 with volume := (w3.bk x0).volume - subvol }).bk b).volume) x0 hx0in
         (by intro x hx; simp only [bk_setBlk, Ne.symm hx, false_and, if_false]; exact g_vol x)]
   simp only [bk_setBlk, hlt, and_self, if_true, g_vol]
   rw [sumRat_perm ((hperm.map fun b => (w.bk b).volume)), List.map_append, sumRat_append, hsv]
   grind
+
+/-- the case where the connection's blocks are the grids' own objects -/
+theorem embed_inv {w : World} {sub : Grid} {c : Nat}
+    (h1 : Grid.Inv w) (h2 : Grid.Inv (w.withGrid sub))
+    (oR : ∀ x ∈ w.rocktypelist, x ∉ sub.rocktypelist) (oB : ∀ x ∈ w.blocklist, x ∉ sub.blocklist)
+    (oC : ∀ x ∈ w.connectionlist, x ∉ sub.connectionlist)
+    (nR : ∀ x ∈ w.rocktypelist, ∀ y ∈ sub.rocktypelist, w.rname x = w.rname y → ∀ b ∈ w.blocklist, (w.bk b).rock ≠ x)
+    (hc : c < w.cons.length) (hc1 : c ∉ w.connectionlist) (hc2 : c ∉ sub.connectionlist)
+    (hhost : (w.cn c).b0 ∈ w.blocklist) (hsb : (w.cn c).b1 ∈ sub.blocklist) :
+    ∃ w' fl, embed w sub c = .ok (w', fl) ∧ Grid.Inv w' ∧
+      (fl = true → totalVolume w' = totalVolume w) ∧ (fl = false → w' = w) :=
+  embed_inv' h1 h2 oR oB oC nR hc hc1 hc2 (h1.bd_complete _ hhost) (h2.bd_complete _ hsb)
 
 end Proofs.Grid
